@@ -241,6 +241,8 @@ func Main(args []string) int {
 	steps := fs.Int("steps", 60, "steps per behaviour")
 	depth := fs.Int("depth", 0, "bounded exploration depth (0 = off)")
 	maxNodes := fs.Int("maxnodes", 4000, "node budget of the bounded exploration")
+	sweepFile := fs.String("sweep", "", "file with behaviours of MC_Sweep (T lines) to replay on real vaults")
+	sweepMax := fs.Int("sweepmax", 40, "max behaviours replayed from the sweep file")
 	fs.Parse(args)
 	lg := &sim.Log{}
 	rng := sim.NewRng(*seed)
@@ -262,6 +264,14 @@ func Main(args []string) int {
 	}
 	if *depth > 0 {
 		explore(lg, rng, *seed, *depth, *maxNodes)
+	}
+	if *sweepFile != "" {
+		n, err := sweepReplay(lg, *sweepFile, *sweepMax, *seed)
+		if err != nil {
+			fmt.Fprintln(os.Stderr, err)
+			return 2
+		}
+		fmt.Printf("harbor: sweep behaviours replayed=%d\n", n)
 	}
 	if err := lg.Write(*out); err != nil {
 		fmt.Fprintln(os.Stderr, err)
